@@ -49,14 +49,14 @@ def run(tier, seed):
     esc = [c for c in ge.printed if c["chname"] in XMLCH]
     cases = []       # (src, base or None, label, needle)
     for c in esc:
-        if c["slot"] == "title" and c["chname"] == "quot": continue
+        if c["slot"] in ("title", "imgtitle") and c["chname"] == "quot": continue          # (a double quote cannot be written inside a double-quoted title)
         cases.append((c["src"].encode(), c["base"].encode() if c["chname"] != "letter" else None, "%s:%s" % (c["slot"], c["chname"]), ("QZQ " + c["ch"] + " QZQ")))
     slots = sorted({(c["slot"], c["base"]) for c in esc})
     for (slot, base) in slots:
         if slot in ("codespan", "codeblock", "indented"): fr = FRAGS[:6] + FRAGS[8:13] + FRAGS[16:19]
         else: fr = FRAGS
         for f in fr:
-            if slot == "title" and '"' in f: continue
+            if slot in ("title", "imgtitle") and '"' in f: continue
             cases.append((base.replace("QZQ x QZQ", "QZQ " + f + " QZQ").encode(), None, "%s:frag:%s" % (slot, f), None))
     # multi-byte characters whose last byte is special to the lexer, at the very end of each text position
     for (slot, base) in slots:
